@@ -632,7 +632,10 @@ def partition(cfgs, nparts):
             return 0.002 * (len(c["qds"]) * len(c["pws"])) ** max(c["ntaps"] - 1, 0) * len(c["q1"]) * len(c["pws"]) + 0.05
         nr, nt = [x or 1 for x in c["ant"]]
         kr, kt = c["users"]
-        return 0.03 + 0.004 * len(c["ops"]) * (c["maxpos"] / 4.0) * nr * nt * kr * kt * (3 if c["pls"] else 1)
+        kinds = {o["k"] for o in c["ops"]}
+        states = max(1.0, c["maxpos"] / 2.5) * (2 if "Dir" in kinds else 1) * ((len(c["pls"]) + 1) if "PL" in kinds else 1)
+        per_edge = 0.004 + 0.0012 * nr * nt * kr * kt * len(c["prof"]) * (2 if any(o["fft"] == 8 for o in c["ops"]) else 1)
+        return 0.03 + states * len(c["ops"]) * 0.6 * per_edge
     parts = [[] for _ in range(nparts)]
     load = [0.0] * nparts
     for c in sorted(cfgs, key=cost, reverse=True):
